@@ -48,6 +48,7 @@ type Lemma struct {
 	TimeoutS  int      `json:"timeout_s"`
 	Stubs     []string `json:"stubs"`
 	Outside   string   `json:"outside"`
+	SolverMs  int      `json:"solver_timeout_ms"`
 	Mode      string   `json:"mode"` // "" = harness, "lockbal" = under-constrained lock balance over Pkgs
 	Pkgs      []string `json:"pkgs"`
 }
@@ -472,7 +473,11 @@ func runLemma(ld *loaded, l *Lemma, tier string, seed int, knownOpen map[string]
 		if os.Getenv("VERIF_SMTLOG") != "" || tier == "thorough" {
 			logPath = filepath.Join(outDir, fmt.Sprintf("%s_w%d.smt2", strings.ReplaceAll(l.ID, ".", "_"), k))
 		}
-		solver, err := NewSolver("z3", []string{"-in"}, logPath, seed, 60000)
+		sms := 60000
+		if l.SolverMs > 0 {
+			sms = l.SolverMs
+		}
+		solver, err := NewSolver("z3", []string{"-in"}, logPath, seed, sms)
 		if err != nil {
 			return nil, err
 		}
